@@ -298,6 +298,9 @@ func (k Keeper) RollbackMeta(ctx sdk.Context, dataId string) {
 
 	if len(metadata.Commits) == 0 {
 		k.RemoveMetadata(ctx, dataId)
+		// the model never had a committed version: its scheduled deletion goes with it, otherwise a model
+		// re-created under the same data id would be deleted at the stale height
+		k.removeDataExpireBlock(ctx, dataId, metadata.CreatedAt+metadata.Duration)
 
 		key := fmt.Sprintf("%s-%s-%s", metadata.Owner, metadata.Alias, metadata.GroupId)
 		k.RemoveModel(ctx, key)
